@@ -7,10 +7,10 @@ from . import world
 FORMATS = ["md5", "sha1", "xxh128", "xxh3", "xxh64", "c4"]
 
 # names: ASCII, spaces, non-ASCII, XML-special, blanks at the ends, glob meta characters, prefixes of each other
-NAMES = ["a", "b", "c", "A", "AB", "A B", "Ab", "a.txt", "b.txt", "c.bin", "d.tmp", "e.tmp", ".proxies", "Clips", "Sound", "notes",
+NAMES = ["a", "b", "c", "A", "AB", "A B", "Ab", "a.txt", "b.txt", "c.bin", "d.tmp", "50% e.tmp", ".proxies", "Clips", "Sound", "notes",
          "ü.txt", "文件", "x&y", "<z>", "q'\"r", " lead", "trail ", "a?", "[ab]", "*s", "x y z.mov", "é", "\U0001F3AC.mov",
          "a b", "dot.", ".hidden", "Z", "zz", "0", "00",
-         "cafe\u0301.mov", "caf\u00e9.mov", "A\u030a"]          # one name in decomposed and in precomposed form; a decomposed one
+         "cafe\u0301.mov", "caf\u00e9.mov", "A\u030a", "proxies 50%", "%s", "100%d {0}"]          # one name in decomposed and in precomposed form; a decomposed one
 DS = ".DS_Store"
 
 
